@@ -230,7 +230,7 @@ func cloneAll(p []*gen.Node) []*gen.Node {
 func c06Interplay(full bool) []string {
 	A := []string{
 		"x = `http://x`;", "x = `a\\`b`;", "x = \"//\";", "x = '\"';", "x = \"'\";", "x = '`';", "x = `\"`;", "x = `'`;", "x = a / b;",
-		"// `", "// \"", "// '", "// it's `q` \"r\"", "x = \"\\\\\";", "x = `\\\\`;", "x = 'a\\'b';", "x = `${`}`;",
+		"// `", "// \"", "// '", "// it's `q` \"r\"", "// x\\", "// \\\\", "x = `C:\\\\`;", "x = \"\\\\\";", "x = `\\\\`;", "x = 'a\\'b';", "x = `${`}`;",
 	}
 	B := []string{
 		"y = `p  \n  q  \n`;", "let v = `  \n\nz`;", "if (a) {\n  b;\n\n  c;\n}", "f(`k \n`, \"s\", `m\t\n `);",
